@@ -16,6 +16,9 @@ type Def struct {
 	Src     string
 	Literal bool
 	Predef  bool
+	// Implicit: a literal that is not declared as a named token but written as "..." in the start rule, so that
+	// the terminal's NAME is the literal text itself.
+	Implicit bool
 }
 
 // Unescape resolves the backslash escapes of a string literal.
@@ -64,6 +67,9 @@ func SpecText(name string, ds []Def) string {
 	var names []string
 	for _, d := range ds {
 		switch {
+		case d.Implicit:
+			names = append(names, `"`+d.Src+`"`)
+			continue
 		case d.Literal:
 			fmt.Fprintf(&b, "%s = \"%s\" ;\n", d.Name, d.Src)
 		case d.Predef:
@@ -80,21 +86,49 @@ func SpecText(name string, ds []Def) string {
 // Sets are the definition sets used as emitted programs: every relation between definitions, everything that
 // needs escaping in Go source, terminals owning no state, Go keywords as terminal text, multi-byte characters.
 func Sets() [][]Def {
-	L := func(name, src string) Def { return Def{name, src, true, false} }
-	P := func(name, src string) Def { return Def{name, src, false, false} }
-	D := func(name, src string) Def { return Def{name, src, false, true} }
+	L := func(name, src string) Def { return Def{Name: name, Src: src, Literal: true} }
+	P := func(name, src string) Def { return Def{Name: name, Src: src} }
+	D := func(name, src string) Def { return Def{Name: name, Src: src, Predef: true} }
+	I := func(src string) Def { return Def{Name: src, Src: src, Literal: true, Implicit: true} }
 	return [][]Def{
+		{I("`"), I("a`b"), I("if"), I("'"), I(`\"`), I(`\\`), I("%d"), I("{{"), P("ID", "[a-z]+")},
+		{I("+"), I("-"), I("*"), I("/"), I("("), I(")"), I("<="), I("!="), I("$"), I("#"), I("?"), D("NUMBER", "$NUMBER"), D("WS", "$WS")},
 		{L("KIF", "if"), L("KIN", "in"), P("ID", "[a-z]+"), P("NUM", "[0-9]+"), D("WS", "$WS")},
 		{L("EQ", "="), L("EQEQ", "=="), P("EQS", "=+x"), P("INT", "[0-9]+"), P("FLT", `[0-9]+\.[0-9]+`)},
 		{L("SQ", "'"), L("BS", `\\`), L("DQ", `\"`), P("ANYQ", `['"]x`)},
 		{P("TAB", `\x09+`), P("EAC", `\x00E9+`), P("PRN", `[\x21-\x2F]+y`), P("EMO", `\x01F600`), L("LET", "let")},
 		{L("KFUNC", "func"), L("KTYPE", "type"), L("KGO", "go"), D("ID", "$ID"), D("WS", "$WS"), D("COMMENT", "$COMMENT")},
 		{L("LET", "let"), L("LE", "le"), L("LL", "l"), P("LID", "l[a-z]*")}, // literals fully shadowing nothing; prefixes
-		{L("AB", "ab"), P("SHADOW", "a(b)"), P("ABS", "ab+")},                // SHADOW owns no state
+		{L("AB", "ab"), P("SHADOW", "a(b)"), P("ABS", "ab+")},               // SHADOW owns no state
 		{D("NUMBER", "$NUMBER"), D("STRING", "$STRING"), D("EOL", "$WS"), L("MINUS", "-")},
 		{P("AA", "a"), P("BC", "b|c"), P("CD", "(cd)+"), P("OPT", "e?f")},
 		{L("SEMI", ";"), L("LB", "{"), L("RB", "}"), L("LLB", "{{"), P("WORD", `\w+`), P("SP", `[ \x09]+`)},
 		{D("ID", "$ID"), D("NUMBER", "$NUMBER"), L("PLUS", "+"), L("STAR", "*"), L("LP", "("), L("RP", ")"), D("WS", "$WS")},
 		{P("UP", "[A-Z][a-z]*"), P("DIGITS", `\d{2,3}`), L("AT", "@"), L("HASH", "#")},
+		{L("BQ", "`"), L("ABQ", "a`b"), L("TRI", "```"), L("DOLLAR", "$"), L("PCT", "%d"), L("NL", `\n`), L("BRACES", "{{}}")},
+		{L("P1", "!"), L("P2", "#"), L("P3", "&"), L("P4", "'"), L("P5", "*"), L("P6", ","), L("P7", "."), L("P8", "/"), L("P9", ":"), L("PA", "<"), L("PB", ">"), L("PC", "?"), L("PD", "["), L("PE", "]"), L("PF", "^"), L("PG", "_"), L("PH", "|"), L("PI", "~"), L("PJ", `\\n`), L("PK", `\"\"`)},
 	}
+}
+
+// MoreSets returns further definition sets for the thorough tiers: every pair and every consecutive triple of a pool
+// chosen so that literals and patterns overlap, nest and share prefixes.
+func MoreSets() [][]Def {
+	L := func(name, src string) Def { return Def{Name: name, Src: src, Literal: true} }
+	P := func(name, src string) Def { return Def{Name: name, Src: src} }
+	D := func(name, src string) Def { return Def{Name: name, Src: src, Predef: true} }
+	pool := []Def{
+		L("KIF", "if"), L("KI", "i"), L("EQ", "="), L("EQEQ", "=="), L("DQ", `\"`), L("BSL", `\\`), L("SQ", "'"),
+		P("LOW", "[a-z]+"), P("IX", "i[a-z]"), P("EQS", "=+"), P("INT", "[0-9]+"), P("TABS", `\x09+`), P("UNI", `[\x00E9\x4E00]+`),
+		D("ID", "$ID"), D("NUMBER", "$NUMBER"), D("WS", "$WS"),
+	}
+	var out [][]Def
+	for i := range pool {
+		for j := i + 1; j < len(pool); j++ {
+			out = append(out, []Def{pool[i], pool[j]})
+		}
+	}
+	for i := 0; i+2 < len(pool); i++ {
+		out = append(out, []Def{pool[i], pool[i+1], pool[i+2]})
+	}
+	return out
 }
